@@ -168,7 +168,7 @@ def run(ctx):
     good = [p for p in pairs if not p["bad"]]
     rng.shuffle(bad)
     rng.shuffle(good)
-    nbad, ngood = ctx.pick((14, 40), (300, 800))
+    nbad, ngood = ctx.pick((14, 40), (250, 550))
     sel = bad[:nbad] + good[:ngood]
     ctx.log("pair interleavings: %d complete schedules generated (%d leave the model of the code unconverged), %d selected"
             % (len(pairs), len(bad), len(sel)))
@@ -194,7 +194,7 @@ def run(ctx):
     for p in rd:
         for k in started_with_pending(p, lambda c: c["op"] if c["op"] in READ_OPS + OPAQUE_OPS else None):
             per.setdefault(k, []).append(p)
-    nper = ctx.pick(2, 12)
+    nper = ctx.pick(2, 8)
     for rop in READ_OPS + OPAQUE_OPS:
         cands = per.get(rop, [])
         if not cands:
@@ -219,7 +219,7 @@ def run(ctx):
             raise vlib.Infra("no generated schedule starts %s while a write of its key is queued" % k)
         rng.shuffle(good)
         rng.shuffle(badk)
-        n = ctx.pick(2 if k.startswith("CompleteUpload") else 1, 10)
+        n = ctx.pick(2 if k.startswith("CompleteUpload") else 1, 6)
         for p in good[:n] + badk[:ctx.pick(1, 6)]:
             p["kind"] = "sync"
             scheds.append(p)
@@ -244,7 +244,7 @@ def run(ctx):
         p["kind"] = "workers"
         scheds.append(p)
     # (a) long single-client histories with the worker flushing at generated points; concurrent random walks
-    n1, n3 = ctx.pick((10, 12), (120, 250))
+    n1, n3 = ctx.pick((10, 12), (100, 180))
     for p in gen_walks(ctx, ["c1"], n1, ctx.pick(10, 14), ctx.seed):
         p["kind"] = "walk1"
         scheds.append(p)
